@@ -44,6 +44,7 @@ type GenCfg struct {
 	ForceCatch         bool     // make sure at least one primitive has Catch
 	NoDataTests        bool     // struct / slice level tests are data-independent (pass / fail, no contains)
 	PCoercer           float64  // per primitive/slice: WithCoercer(custom)
+	PCatchVary         float64  // per catching leaf: its value is drawn around the witness whatever the case's perturbation scale (caught failures in otherwise clean cases)
 	PComplex           float64  // per "func" test: written as a complex test (z.Test{Func} + ctx.AddIssue)
 	PLayout            float64  // per time node: z.Time.Format(layout)
 	GlobalKinds        []string // base kinds (string,int,float64,bool,time,slice) whose global coercer is overridden in this run
@@ -963,7 +964,7 @@ func (g *Gen) leafValue(n *Node) Val {
 		}
 		return w
 	}
-	if g.p(g.Cfg.PVary*g.scale, "vary") {
+	if g.p(g.Cfg.PVary*g.scale, "vary") || (n.Catch != nil && g.p(g.Cfg.PCatchVary, "catchvary")) {
 		return g.fixFully(n.Kind, g.vary(n.Kind, w))
 	}
 	return w
